@@ -138,7 +138,7 @@ def scope(M, T, P):
 
 class LeaderEng(_grp.GRPEngine):
     """the leader path end to end: the real Coordinator elected leader by the coordinator model, ghosts with equal or wider subscriptions"""
-    MACROS = ["stable", "rebalance", "rebalance", "leave", "joinfault"]
+    MACROS = ["stable", "rebalance", "rebalance", "leave", "joinfault", "lookupfault"]
     MACRO_ONE_IN = 2
 
     def nontrivial(self):
